@@ -242,11 +242,12 @@ Definition del_tokens (d : doc) (items : list item) (start stop : Z) : doc * res
 (* result of a mutator: state, donors as left, result *)
 Definition out (R : Type) := (st * list donor * res R)%type.
 
-(* __setitem__(index: int, value) *)
-Definition setitem_int (s : st) (index : Z) (v : donor) : out unit :=
+(* __setitem__(index: int, value); `same` models `item is value` (xs[i] = xs[i]: a no-op) *)
+Definition setitem_int (s : st) (index : Z) (same : bool) (v : donor) : out unit :=
   match list_get_int (s_items s) index with
   | Err e => (s, [v], Err e)
   | Ok it =>
+      if same then (s, [v], Ok tt) else
       match detach v with
       | Err e => (s, [v], Err e)
       | Ok (ts, v') =>
@@ -410,12 +411,30 @@ Fixpoint drop_loop (d : doc) (items : list item) (rs : list (Z * Z)) : doc * res
       end
   end.
 
-(* drop_many(indexes) *)
-Definition drop_many (s : st) (idxs : list Z) : out unit :=
+(* the validation loop of drop_many: IndexError for an index outside -len..len-1 (nothing touched yet),
+   negative indexes counted from the end, duplicates collapsed (a set) *)
+Fixpoint norm_all (n : Z) (idxs : list Z) (acc : list Z) : res (list Z) :=
+  match idxs with
+  | [] => Ok acc
+  | i :: r => match norm_index n i with
+              | Err _ => Err IndexError
+              | Ok j => norm_all n r (if zmem j acc then acc else j :: acc)
+              end
+  end.
+
+(* drop_many after validation: indexes distinct and in range *)
+Definition drop_many_core (s : st) (idxs : list Z) : out unit :=
   let sorted := sort_desc idxs in
   match drop_loop (s_doc s) (s_items s) (runs_desc sorted None) with
   | (d', Err e) => (mkst d' (s_items s), [], Err e)
   | (d', Ok _) => (mkst d' (remove_positions sorted (s_items s)), [], Ok tt)
+  end.
+
+(* drop_many(indexes) *)
+Definition drop_many (s : st) (idxs : list Z) : out unit :=
+  match norm_all (zlen (s_items s)) idxs [] with
+  | Err e => (s, [], Err e)
+  | Ok ns => drop_many_core s ns
   end.
 
 (* __delitem__(index) *)
